@@ -819,6 +819,13 @@ val simple_target_to_expr : node -> node
 
 val is_pat_target : node -> bool
 
+val hoist_key : config -> node -> sp -> acc -> pstate -> (node * acc) * pstate
+
+val hoist_member :
+  config -> node -> sp -> acc -> pstate -> ((node * acc) * pstate) option
+
+val peel_parens : node -> node
+
 val hoist_target :
   config -> node -> sp -> acc -> pstate -> (node * acc) * pstate
 
